@@ -1,6 +1,7 @@
 package main
 
 import (
+	_ "embed"
 	"encoding/json"
 	"flag"
 	"fmt"
@@ -189,6 +190,7 @@ func main() {
 	editFile := flag.String("edit-file", "", "with -edit-old/-edit-new: single-site in-memory edit of this file")
 	editOld := flag.String("edit-old", "", "")
 	editNew := flag.String("edit-new", "", "")
+	dumpFloor := flag.Bool("dump-floor", false, "print the (rule, kind) pairs that have obligations on this tree (input of rule_floor.txt)")
 	dumpKnownFlag := flag.Bool("dump-known", false, "print the function and call-edge list of the tree (input of known_calls.txt)")
 	dumpNorm := flag.String("dump-normalised", "", "write the files changed by the inlining normalisation into this directory and exit")
 	normOnly := flag.Bool("normalised-only", false, "debugging: run the check on the normalised program only")
@@ -291,6 +293,17 @@ func main() {
 		*noNorm = true
 	}
 	res := runProp(*prop, f, *repo, *tier)
+	if *dumpFloor {
+		var ks []string
+		for k := range ruleKinds(res) {
+			ks = append(ks, k)
+		}
+		sort.Strings(ks)
+		for _, k := range ks {
+			fmt.Println(k)
+		}
+		os.Exit(0)
+	}
 	definite := false
 	for _, o := range res.Obls {
 		if !o.OK && o.Definite {
@@ -378,7 +391,48 @@ func runProp(prop string, f ruleFunc, repo, tier string) (res *Result) {
 	res.Configs = append(res.Configs, P.Config)
 	globalEffects = newEffects(P)
 	f(P, res, tier)
+	applyFloor(res, prop)
 	return
+}
+
+//go:embed rule_floor.txt
+var ruleFloorText string
+
+// ruleKinds lists the (rule, obligation kind) pairs of a result, e.g. "C05/CURSOR return".
+func ruleKinds(res *Result) map[string]int {
+	out := map[string]int{}
+	for _, o := range res.Obls {
+		kind := o.Construct
+		if i := strings.IndexAny(kind, "# "); i >= 0 {
+			kind = kind[:i]
+		}
+		out[o.Rule+" "+kind]++
+	}
+	return out
+}
+
+// applyFloor: a rule that has instances on the pinned tree and none on the tree analysed has lost the form it is
+// anchored in — it would otherwise pass vacuously for ever. rule_floor.txt (generated with -dump-floor on the pinned
+// tree) lists the (rule, kind) pairs that must have at least one obligation.
+func applyFloor(res *Result, prop string) {
+	if len(res.Fatal) > 0 || os.Getenv("VERIF_NO_FLOOR") != "" {
+		return
+	}
+	have := ruleKinds(res)
+	var missing []string
+	for _, l := range strings.Split(ruleFloorText, "\n") {
+		l = strings.TrimSpace(l)
+		if l == "" || strings.HasPrefix(l, "#") || !strings.HasPrefix(l, prop+"/") {
+			continue
+		}
+		if have[l] == 0 {
+			missing = append(missing, l)
+		}
+	}
+	sort.Strings(missing)
+	for _, m := range missing {
+		res.fatal("no obligation of kind %q on this tree (the pinned tree has some): what the rule is anchored in is gone, it would pass vacuously", m)
+	}
 }
 
 func finish(res *Result, prop, tier string, seed int, verif string, start time.Time, noEvidence, verbose bool) int {
